@@ -574,12 +574,14 @@ Definition shutdown_state (s : flw) (w : world) : world * flw :=
   | Initial => (w, s)
   end.
 
-(* dropping the FileLogWriter: shutdown, then the boxed writer is dropped *)
+(* dropping the writer pair (FileLogWriterHandle, then the last Arc<FileLogWriter>): both Drop impls call
+   shutdown, then the State and with it the boxed writer is dropped *)
 Definition drop_state (s : flw) (w : world) : world :=
   let '(w1, s1) := shutdown_state s w in
-  match f_inner s1 with
-  | Active _ wr _ => w_drop w1 wr
-  | Initial => w1
+  let '(w2, s2) := shutdown_state s1 w1 in
+  match f_inner s2 with
+  | Active _ wr _ => w_drop w2 wr
+  | Initial => w2
   end.
 
 (* State::reopen_outputfile: the new writer is an unbuffered File; the old one is dropped *)
